@@ -966,5 +966,14 @@ func (p *Parser) Parse() (Statement, error) {
 	selectStmt.Order = orderStmt
 	selectStmt.GroupBy = groupByStmt
 	err = selectStmt.ValidateFields(checkCtx)
+	if err == nil {
+		// The field types were taken while the field names used inside the
+		// fields were still unresolved (`y + 'x' as m` looked numeric)
+		for i, f := range selectStmt.Fields {
+			if i < len(selectStmt.FieldTypes) {
+				selectStmt.FieldTypes[i] = f.ReturnType()
+			}
+		}
+	}
 	return selectStmt, err
 }
